@@ -257,16 +257,13 @@ Proof.
 Qed.
 
 (* a directive string as the specification: the context's only key is the value's own type, which
-   accepts the value unless it is Float[NaN, NaN] *)
-Definition is_nan_value (v : value) : bool := match v with VFloat b => f_is_nan b | _ => false end.
-
+   accepts the value (NaN included: its type is the unbounded Float type) *)
 Lemma format_value_scalar o v s f :
-  is_container v = false -> is_nan_value v = false -> parse_format s None None CfNone = ROk f ->
+  is_container v = false -> parse_format s None None CfNone = ROk f ->
   format_value o v (FStr s) = Some (render_scalar o f v).
 Proof.
-  intros Hc Hn Hp. unfold format_value, context_of. rewrite Hp. cbn [bind].
-  destruct v; cbn in Hc, Hn |- *; try discriminate; try reflexivity.
-  rewrite Hn. reflexivity.
+  intros Hc Hp. unfold format_value, context_of. rewrite Hp. cbn [bind].
+  destruct v; cbn in Hc |- *; try discriminate; reflexivity.
 Qed.
 
 (* ------------------------------------------------------------------------------------------ *)
@@ -361,10 +358,10 @@ Proof.
 Qed.
 
 Theorem unsupported_iff_directive o v s f c k :
-  is_container v = false -> is_nan_value v = false -> parse_format s None None CfNone = ROk f ->
+  is_container v = false -> parse_format s None None CfNone = ROk f ->
   (format_value o v (FStr s) = Some (OErr (EUnsupported c k))
    <-> (supported (kind_of v) (f_char f) = false /\ c = f_char f /\ k = kind_of v)).
 Proof.
-  intros Hc Hn Hp. rewrite (format_value_scalar o v s f Hc Hn Hp).
+  intros Hc Hp. rewrite (format_value_scalar o v s f Hc Hp).
   rewrite <- (unsupported_iff o f v c k Hc). split; [intros H; now injection H | intros ->; reflexivity].
 Qed.
